@@ -119,7 +119,7 @@ def c03(tier, seed):
                           "flagged_call_skipped_although_flag_truthy"] + ["call_site_entered_%d_times_expected_%d" % (a, b) for a in range(6) for b in range(2)])
         + [dict(kind="hist15", pid="C03", n_histories=(40 if tier == "quick" else 400), only=["executor_rerun_used_partially_consumed_graph"],
                 **_seeds(seed + 95, k)) for k in range(2 if tier == "quick" else 8)]
-        + [dict(kind="hist11", pid="C03", n_histories=(40 if tier == "quick" else 400),
+        + [dict(kind="hist11", pid="C03", n_histories=(250 if tier == "quick" else 1000),
                 only=["executed_set_differs_from_model", "ran_setup_node_the_selection_does_not_need", "setup_node_ran_more_than_once_on_one_instance"],
                 **_seeds(seed + 90, k)) for k in range(2 if tier == "quick" else 8)]
         # ... nor a disabled debug node, in any execution mode of either flavour
@@ -357,7 +357,7 @@ def c10(tier, seed):
         jobs=diff_jobs("C10", tier, seed, dict(flags=0.5, nest=0.25, nest_flag=0.6, max_stmts=7, ops=0.08, kwargs=0.3, lazy_rate=0.25), 2)
         # flags fed by SETUP results over histories on one object (partial setup, executors, calls, deep copies, reloads): a node runs
         # iff its flag is truthy when the execution runs - also when the flag's producer had not run when setup() was called
-        + [dict(kind="hist11", pid="C10", n_histories=(150 if tier == "quick" else 1500), require_flags=True,
+        + [dict(kind="hist11", pid="C10", n_histories=(500 if tier == "quick" else 2000), require_flags=True,
                 only=["executed_set_differs_from_model", "later_execution_does_not_see_first_setup_value"],
                 **_seeds(seed + 45, k)) for k in range(2 if tier == "quick" else 8)]
         # a flag that is a DAG argument is evaluated for every call: IF a setup node carrying such a flag can be built at all, the
@@ -495,7 +495,7 @@ def c15(tier, seed):
                 seed=seed * 97 + 70 + h, hashseed=h, variants={"debug": 1, "retry": 1}) for h in range(1 if tier == "quick" else 4)]
         # "... except setup results": what an execution leaves on the instance about SETUP nodes must be their first value - never
         # a None for a setup node the execution did not select, never a value that makes a later execution skip or repeat one
-        + [dict(kind="hist11", pid="C15", n_histories=(60 if tier == "quick" else 600),
+        + [dict(kind="hist11", pid="C15", n_histories=(400 if tier == "quick" else 1500),
                 only=["later_execution_does_not_see_first_setup_value", "setup_node_in_selection_did_not_run", "executed_set_differs_from_model"],
                 **_seeds(seed + 35, k)) for k in range(2 if tier == "quick" else 8)]
         # "... never on executors created": a restart executor reads the cache file as it is NOW, not as an earlier executor of the
@@ -504,7 +504,7 @@ def c15(tier, seed):
                 **_seeds(seed + 37, k)) for k in range(2 if tier == "quick" else 8)]
         # copies (deepcopy, dill round trip) made before / after calls and failed calls behave like the freshly built DAG, and so does
         # the original; an await after a CANCELLED await; an inner DAG after it was called from node functions of another DAG
-        + [dict(kind="env", pid="C15", scenarios=["copies", "loops", "reentrant"], n_cases=(60 if tier == "quick" else 600),
+        + [dict(kind="env", pid="C15", scenarios=["copies", "loops", "reentrant"], n_cases=(150 if tier == "quick" else 900),
                 only=["call_on_a_copied_or_copied_from_dag_wrong", "deepcopy_of_a_dag_raised", "await_after_a_cancelled_await_in_the_same_loop_*",
                       "dag_state_changed_by_calls_from_node_bodies", "execution_handed_work_to_the_event_loops_default_executor",
                       "dag_object_used_as_node_function_got_state_from_the_outer_executions"], **_seeds(seed + 39, k)) for k in range(2 if tier == "quick" else 6)],
